@@ -39,13 +39,18 @@ theorem find?_of_nodup_key {α : Type} (key : α → Vid) (l : List α) (hnd : (
       rw [this]
       exact ih hnd.2 h
 
-/-- The sites inputs can reach inside `make_query_component`: F-12, N-6, N-2 and N-3. -/
-def PostSite (s : Site) : Prop := CompSite s ∨ s = .dupOutputVertexIndex
+/-- The sites inputs can reach inside `make_query_component`: F-12, N-6, N-3, and N-2 when (`r`)
+some edge argument contains an enum literal. -/
+def PostSite (r : Bool) (s : Site) : Prop := CompSite r s ∨ s = .dupOutputVertexIndex
+
+/-- `r` accounts for every enum literal among the arguments of the component's recorded edges. -/
+def EdgesFlag (r : Bool) (cd : CD) : Prop :=
+  ∀ e ∈ cd.edges, argsHaveEnum e.conn.arguments = true → r = true
 
 theorem componentPost_sat {S : SchemaView} (hS : ValidSchemaView S) {st : St} {cd : CD}
     (hinv : st.Inv) (hout : 0 < st.outStack.length) (hcd : CD.Inv S st cd)
-    (fillErrs : List FrontErr) :
-    Sat PostSite (componentPost S st cd fillErrs) (fun r =>
+    (fillErrs : List FrontErr) {re : Bool} (hflag : EdgesFlag re cd) :
+    Sat (PostSite re) (componentPost S st cd fillErrs) (fun r =>
       r.1.Inv ∧ r.1.path = st.path ∧ r.1.vidStack = st.vidStack ∧ r.1.nextVid = st.nextVid ∧
       r.1.nextEid = st.nextEid ∧ r.1.prefixes = st.prefixes ∧ r.1.globalOutputs = st.globalOutputs ∧
       st.outStack.length ≤ r.1.outStack.length + 1 ∧
@@ -85,7 +90,8 @@ theorem componentPost_sat {S : SchemaView} (hS : ValidSchemaView S) {st : St} {c
       rw [hcomp, this]
       simp [hvid]
     refine Sat.bind ((edgesLoop_sat hS r.2.2.1 cd.edges [] hedges).monoK
-      (fun s h => Or.inl (Or.inr h))) fun edgeErrs _ => ?_
+      (fun s h => Or.inl (Or.inr ⟨h.1, by obtain ⟨e, he, h'⟩ := h.2; exact hflag e he h'⟩)))
+      fun edgeErrs _ => ?_
     split
     · rename_i hne
       refine ⟨hrinv, htag.path, htag.vidStack, htag.nextVid, htag.nextEid, htag.prefixes,
@@ -399,8 +405,8 @@ theorem fillProperty_sat {S : SchemaView} {st : St} {cd : CD} (hinv : st.Inv)
     Sat (fun _ => False)
       (fillProperty cur conn subName subAlias subFilters subOutputs subTags fieldName ty st cd)
       (fun r => St.Step st r.1 True ∧ r.1.outStack.length = st.outStack.length ∧
-        CD.Inv S r.1 r.2.1 ∧ r.2.1.vertices = cd.vertices ∧ r.2.1.folds = cd.folds ∧
-        OutNew st r.1 (fun f => f.vid = cur)) := by
+        CD.Inv S r.1 r.2.1 ∧ r.2.1.vertices = cd.vertices ∧ r.2.1.edges = cd.edges ∧
+        r.2.1.folds = cd.folds ∧ OutNew st r.1 (fun f => f.vid = cur)) := by
   unfold fillProperty
   dsimp only
   refine Sat.bind (recordProperty_sat hcd hcur hty subFilters) fun props hprops => ?_
@@ -411,7 +417,7 @@ theorem fillProperty_sat {S : SchemaView} {st : St} {cd : CD} (hinv : st.Inv)
     registerPropertyTags_spec (.context cur subName ty) (subAlias.getD subName) subTags st1 []
       hstep1.inv
   have hstep := hstep1.trans hstep2 (fun x => (⟨x, x⟩ : True ∧ True))
-  refine ⟨hstep, by rw [hout2, hlen1], ?_, rfl, rfl, ?_⟩
+  refine ⟨hstep, by rw [hout2, hlen1], ?_, rfl, rfl, rfl, ?_⟩
   · exact ⟨hcd.nodup, fun v hv => Nat.lt_of_lt_of_le (hcd.vidsLt v hv) hstep.nextVid,
       fun e he => Nat.lt_of_lt_of_le (hcd.eidsLt e he) hstep.nextEid, hcd.edgesOk, hprops⟩
   · have h3 : OutNew st1 (registerPropertyTags (.context cur subName ty) (subAlias.getD subName) st1
